@@ -322,7 +322,10 @@ def check_c10(run):
     # lexer-level oddities outside and inside strings
     for t in ['rule "b" begin # return 2 end', 'rule "b" "d" begin $ end', 'rule "b" begin x = 1 ~ 2 end', 'rule "b" begin s = "#$~" end',
               'rule "\u4e2d" begin end', 'rule "b" begin \u4e2d end', 'rule "b" begin x = 1 end @', 'rule "b" begin x = 1 end rule',
-              'rule "b" begin x = 1 end\x00', 'RULE "b" BEGIN END', 'rule "b" "d" salience -0 begin end', 'rule "b" salience 99999999999999999999 begin end',
+              'rule "b" begin x = 1 end\x00', 'RULE "b" BEGIN END',
+              # tokens behind the last rule
+              'rule "b" begin x = 1 end xyz', 'rule "b" begin x = 1 end end', 'rule "b" begin x = 1 end }', 'rule "b" begin x = 1 end 5',
+              'rule "b" begin x = 1 end "s"', 'rule "b" begin x = 1 end begin', 'rule "b" begin x = 1 end x = 2', 'rule "b" begin end ;', 'rule "b" "d" salience -0 begin end', 'rule "b" salience 99999999999999999999 begin end',
               'rule "" begin end', 'rule "b" "" begin end', 'rule "b" begin m[""] = 1 end', 'rule "b" begin x = 1e5 y = .5 z = 5. end',
               'rule "b" begin return end rule "c" begin return 1 end', 'rule "b" begin if true { } end', 'rule "b" begin conc { } end',
               'rule "b" begin for i = 0; i < 1; i += 1 { } end', 'rule "b" begin a.b.c.d = 1 end', 'rule "b" begin x = a.b.c.d(1) end',
